@@ -5,6 +5,8 @@ package outputstream
 import (
 	"encoding/binary"
 	"math"
+	"reflect"
+	"strings"
 	"sync"
 
 	"github.com/robustirc/robustirc/internal/robust"
@@ -24,7 +26,22 @@ var verifSharedUses int
 // a LevelDB costs ~2.4 ms even on in-memory storage, so the executions of one worker share one
 // database (in-memory storage) that is emptied between executions; the OutputStream object
 // itself (locks, condition variable, cache, lastseen) is fresh every time.
+// verifStreamFields are the fields of OutputStream this constructor knows how to initialise.  A field
+// added to the repository later makes the harness stop (HARNESS-OUT-OF-DATE) instead of running the
+// real code on a half-initialised object.
+var verifStreamFields = "tmpdir,dirname,messagesMu,newMessage,db,batch,lastseen,cacheMu,messagesCache"
+
 func verifNewStreamImpl() (*OutputStream, error) {
+	if verifSharedDB == nil {
+		t := reflect.TypeOf(OutputStream{})
+		var names []string
+		for k := 0; k < t.NumField(); k++ {
+			names = append(names, t.Field(k).Name)
+		}
+		if got := strings.Join(names, ","); got != verifStreamFields {
+			panic("HARNESS-OUT-OF-DATE: OutputStream has fields " + got + ", the harness constructor knows " + verifStreamFields)
+		}
+	}
 	o := &OutputStream{messagesCache: make(map[uint64]*messageBatch)}
 	o.newMessage = sync.NewCond(&o.messagesMu)
 	verifSharedUses++
